@@ -396,7 +396,8 @@ register("C03", {
             "re-iterable / one-shot iterators with arbitrary chunking incl. empty chunks) on "
             "HTTP/1.1 and HTTP/2 (server windows down to 1 byte, frame sizes, all WINDOW_UPDATE "
             "policies), on first use and on reuse, through a forwarding proxy with proxy headers, "
-            "credentials and caller overrides, plus transparent re-sends (double assignment "
+            "credentials and caller overrides (the header list object the caller passes must "
+            "come back unchanged), plus transparent re-sends (double assignment "
             "on an HTTP/2-capable connection that turns out HTTP/1.1; GOAWAY below the stream id) "
             "and definitely-illegal heads (CR, LF, NUL, space in method / target / header name / "
             "value); oracle = independent HTTP/1.1 parser and raw HTTP/2 frame ledger; all runs "
